@@ -1,8 +1,12 @@
 import Driver.Proto
+import Driver.C15
+import Driver.C15Mon
 import Driver.C16
 import Driver.C16Mon
 
 def suites : List (String × Driver.Suite) :=
+  Driver.C15.suites ++
+  Driver.C15Mon.suites ++
   Driver.C16.suites ++
   Driver.C16Mon.suites
 
